@@ -1285,6 +1285,11 @@ func (s *BgpServer) handleRouteRefresh(peer *peer, e *fsmMsg) {
 		peer.fsm.logger.Warn("ROUTE_REFRESH received but the capability wasn't advertised")
 		return
 	}
+	if !needToAdvertise(peer) {
+		// RFC 4724 4.1: a restarting speaker has not selected its routes yet and
+		// sends nothing before the deferral ends; the whole table follows then.
+		return
+	}
 	rfList := []bgp.Family{rf}
 	s.getBestFromLocalCallback(peer, rfList, true, true, func(paths []*table.Path, filtered []*table.Path) {
 		// the Adj-RIB-Out is re-evaluated under the current export policy:
@@ -3058,6 +3063,10 @@ func (s *BgpServer) softResetOut(addr string, family bgp.Family, deferral bool) 
 			} else {
 				continue
 			}
+		} else if !needToAdvertise(peer) {
+			// RFC 4724 4.1: nothing is sent to this peer before the deferral of the
+			// restarting speaker ends; the whole table follows then.
+			continue
 		}
 
 		s.getBestFromLocalCallback(peer, families, true, true, func(paths []*table.Path, filtered []*table.Path) {
